@@ -23,6 +23,9 @@ KANI_DOMAIN = {
     'greeting_ser': 'every version (u8,u8) x 3 mechanisms x as_server in {false,true}',
     'greeting_default': 'the single default greeting',
     'cmdname_as_str': 'the single command name',
+    'bytes_spec_bm_read': 'BytesMut of <= 8 octets', 'bytes_spec_bm_write': 'symbolic u8/u32/u64 and slices of <= 8 octets', 'bytes_spec_b_from_str': 'one literal',
+    'bytes_spec_bm_split_to': 'BytesMut of <= 4 octets', 'bytes_spec_bm_freeze': 'BytesMut of <= 4 octets', 'bytes_spec_bm_reserve': 'BytesMut of <= 4 octets, reserve <= 16',
+    'bytes_spec_b_basic': 'Bytes of <= 4 octets', 'bytes_spec_b_consume': 'Bytes of <= 4 octets',
     'encode_loop3': 'messages of 1..=3 frames drawn from the static bodies "", "a", "b"',
     'encode_loop': 'messages of 1..=3 frames with bodies of 0..=2 symbolic octets',
     'ready_ser': 'READY for every socket type, identity absent or 1..=3 symbolic octets',
@@ -42,6 +45,7 @@ PROPS = {
         'units': ['codec'],
         'scope': [
             ('codec', r'^encode_frame$', A, None),
+            ('codec', r'^ZmqCodec::encode$', A, None),
             ('codec', r'^ZmqCodec::decode$', F, r'^(?!bm_reserved)'),
             ('codec', r'^ZmqCodec::new$', A, None),
             ('codec', r'ZmqGreeting as TryFrom', A, None),
@@ -110,15 +114,17 @@ PROPS = {
             ('reqrep', r'^ReqSocket::recv$', S, None),
             ('reqrep', r'^RepSocket::send$', A, None),
             ('reqrep', r'^RepSocket::recv$', {'post', 'inv-entry', 'inv-end'}, None),
+            ('reqrep', r'^RepSocket::recv$', {'assert'}, r'delimiter_end|it\.seq|index =='),
             ('reqrep', r'^RepSocket::recv$', S, None),
+            ('reqrep', r'^tmpl::lemma_delimiter', A, None),
         ],
         'kani': {},
         'assumptions': [
-            'A-REGION-1: the delimiter-search loop `for (index, frame) in m.iter().enumerate() {..}` in RepSocket::recv is NOT verified (Iterator::enumerate is outside Verus); it is replaced by a stub assumed to set `at` to (index of the first empty frame)+1, or to leave it at 1',
+            'the delimiter-search loop `for (index, frame) in m.iter().enumerate()` in RepSocket::recv IS verified (former assumed region A-REGION-1), against an ASSUMED model of std: in this unit `Iter` / `enumerate()` are stand-ins that yield (0,&v[0]), (1,&v[1]), .. in order (prelude/enum_iter.rs), and ZmqMessage::iter / prepend are stubs whose contracts are verified in unit `message`',
             'stand-ins with assumed contracts: scc::HashMap as a map (get_async yields &mut to exactly the entry of k), SegQueue as FIFO, FairQueue::next / FramedRead::next yield any item and log it, FramedWrite::send = feed + flush',
             'Arc<T> modelled as Box<T> and interior mutability as &mut (D7): no other task touches the backend during one call (sequential scope)',
         ],
-        'not_covered': ['mutations inside the assumed region A-REGION-1', 'requests arriving through real DEALER / ROUTER chains as a whole (each hop is covered by its own contract: C09, C10)'],
+        'not_covered': ['requests arriving through real DEALER / ROUTER chains as a whole (each hop is covered by its own contract: C09, C10)'],
     },
     'C08': {
         'units': ['reqrep'],
@@ -209,8 +215,12 @@ PROPS = {
         ],
         'kani': {
             'quick': [('mech_parse', 'complete'), ('compat_table', 'complete'), ('socktype_parse', 'bounded')],
-            'thorough': [('mech_parse', 'complete'), ('compat_table', 'complete'), ('socktype_parse', 'bounded')],
+            'thorough': [('mech_parse', 'complete'), ('compat_table', 'complete'), ('socktype_parse', 'bounded'),
+                         ('bytes_spec_bm_read', 'bounded'), ('bytes_spec_bm_write', 'bounded'), ('bytes_spec_b_from_str', 'bounded'),
+                         ('bytes_spec_bm_split_to', 'bounded'), ('bytes_spec_bm_freeze', 'bounded'), ('bytes_spec_bm_reserve', 'bounded'),
+                         ('bytes_spec_b_basic', 'bounded'), ('bytes_spec_b_consume', 'bounded')],
         },
+        'kani_timeout': {'thorough': 3000},
         'assumptions': [],
         'not_covered': ['"other connections keep working"; panics inside spawned tasks; the PUB/XPUB subscription parser (message_received)'],
     },
